@@ -310,8 +310,9 @@ func (b *assignmentBuilder) createWithConverter(lhs, rhs bmodel.Node, converter 
 				return nil
 			}
 			argNode, ok = b.castNode(util.DerefPtr(converter.ArgType()), rhsNode)
-			if !ok || argNode.AssignExpr() != rhsNode.AssignExpr() {
-				// The address is passed; a conversion or a String() result has none.
+			if !ok || argNode.AssignExpr() != rhsNode.AssignExpr() || !bmodel.CanTakeAddress(rhsNode) {
+				// The address is passed; a conversion, a String() result, the result of a
+				// getter and the fields of such a result have none.
 				return nil
 			}
 		}
